@@ -1186,7 +1186,10 @@ def main():
              ('fx_start', lambda: do_effects('LidarDriverImpl', 'start', S_IMPL)),
              ('fx_stop', lambda: do_effects('LidarDriverImpl', 'stop', S_IMPL)),
              ('fx_decodePacket', lambda: do_effects('LidarDriverImpl', 'decodePacket', S_IMPL)),
-             ('fx_dtor', lambda: do_effects('LidarDriverImpl', '~LidarDriverImpl', S_IMPL, name='dtor'))]
+             ('fx_dtor', lambda: do_effects('LidarDriverImpl', '~LidarDriverImpl', S_IMPL, name='dtor')),
+             ('fx_packetGet', lambda: do_effects('LidarDriverImpl', 'packetGet', S_IMPL)),
+             ('fx_packetPut', lambda: do_effects('LidarDriverImpl', 'packetPut', S_IMPL)),
+             ('fx_internalProcessPacket', lambda: do_effects('LidarDriverImpl', 'internalProcessPacket', S_IMPL))]
     jobs += [('gates_msop', lambda: do_gates('Decoder', 'processMsopPkt', 'rs_driver/driver/decoder/decoder.hpp')),
              ('gates_difop', lambda: do_gates('Decoder', 'processDifopPkt', 'rs_driver/driver/decoder/decoder.hpp'))]
     jobs += [('throttle_sites', lambda: do_throttle_sites([('Decoder', 'processMsopPkt'), ('Decoder', 'processDifopPkt'),
